@@ -131,3 +131,86 @@ def pos(f: Func, n: ast.AST) -> int:
 
 def before(f: Func, a: ast.AST, b: ast.AST) -> bool:
     return pos(f, a) < pos(f, b)
+
+
+def value_equality_defs(P: Program, clsname: str):
+    """Definitions that give objects of class `clsname` (or one of its base classes inside the package) an equality / hash that is not
+    object identity: a `__eq__` / `__hash__` method or class-level binding, or a `@dataclass` with eq enabled.  Accepted as
+    identity-equivalent (and not listed): bodies that only compare / hash the per-object `id` field that Node.__init__ draws fresh
+    (`self.id == other.id`, `self is other`, `isinstance(other, X)`, `hash(self.id)`, `id(self)`).
+    Returns [(Cls, node, text)]."""
+    out = []
+    seen = set()
+    todo = [clsname]
+    while todo:
+        cn = todo.pop()
+        if cn in seen:
+            continue
+        seen.add(cn)
+        hits = [m.classes[cn] for m in P.modules.values() if not m.virtual and cn in m.classes]
+        for c in hits:
+            for b in c.node.bases:
+                bn = b.attr if isinstance(b, ast.Attribute) else (b.id if isinstance(b, ast.Name) else (b.value.id if isinstance(b, ast.Subscript) and isinstance(b.value, ast.Name) else None))
+                if bn:
+                    todo.append(bn)
+            for d in c.node.decorator_list:
+                dn = d.func if isinstance(d, ast.Call) else d
+                name = dn.attr if isinstance(dn, ast.Attribute) else (dn.id if isinstance(dn, ast.Name) else "")
+                if name == "dataclass":
+                    eq_off = isinstance(d, ast.Call) and any(k.arg == "eq" and isinstance(k.value, ast.Constant) and k.value.value is False for k in d.keywords)
+                    if not eq_off:
+                        out.append((c, d, f"@{ast.unparse(d)} on class {cn} (field-wise __eq__)"))
+            for st in c.node.body:
+                if isinstance(st, (ast.FunctionDef, ast.AsyncFunctionDef)) and st.name in ("__eq__", "__hash__"):
+                    if not _identity_equivalent(st):
+                        out.append((c, st, f"{cn}.{st.name}"))
+                elif isinstance(st, (ast.Assign, ast.AnnAssign)):
+                    tg = st.targets if isinstance(st, ast.Assign) else [st.target]
+                    if any(isinstance(t, ast.Name) and t.id in ("__eq__", "__hash__") for t in tg):
+                        out.append((c, st, f"{cn}: {ast.unparse(st)}"))
+    return out
+
+
+def _identity_equivalent(fn: ast.FunctionDef) -> bool:
+    params = [a.arg for a in fn.args.args]
+    if not params:
+        return False
+    me = params[0]
+    other = params[1] if len(params) > 1 else None
+    body = [s for s in fn.body if not (isinstance(s, ast.Expr) and isinstance(s.value, ast.Constant))]
+
+    def idref(e, who):
+        return isinstance(e, ast.Attribute) and e.attr == "id" and isinstance(e.value, ast.Name) and e.value.id == who
+
+    def ok_expr(e) -> bool:
+        if isinstance(e, ast.BoolOp):
+            return all(ok_expr(v) for v in e.values)
+        if isinstance(e, ast.Constant) and e.value is NotImplemented:
+            return True
+        if isinstance(e, ast.Name) and e.id == "NotImplemented":
+            return True
+        if isinstance(e, ast.Call) and isinstance(e.func, ast.Name):
+            if e.func.id == "isinstance" and len(e.args) == 2 and isinstance(e.args[0], ast.Name) and e.args[0].id == other:
+                return True
+            if e.func.id == "hash" and len(e.args) == 1 and idref(e.args[0], me):
+                return True
+            if e.func.id == "id" and len(e.args) == 1 and isinstance(e.args[0], ast.Name) and e.args[0].id == me:
+                return True
+            return False
+        if isinstance(e, ast.Compare) and len(e.ops) == 1 and other is not None:
+            l, r = e.left, e.comparators[0]
+            if isinstance(e.ops[0], ast.Is) and {getattr(l, "id", None), getattr(r, "id", None)} == {me, other}:
+                return True
+            if isinstance(e.ops[0], ast.Eq) and ((idref(l, me) and idref(r, other)) or (idref(l, other) and idref(r, me))):
+                return True
+        return False
+
+    for s in body:
+        if isinstance(s, ast.Return) and s.value is not None and ok_expr(s.value):
+            continue
+        if isinstance(s, ast.If) and isinstance(s.test, ast.UnaryOp) and isinstance(s.test.op, ast.Not) and ok_expr(s.test.operand) \
+                and len(s.body) == 1 and isinstance(s.body[0], ast.Return) and not s.orelse \
+                and (ok_expr(s.body[0].value) or (isinstance(s.body[0].value, ast.Constant) and s.body[0].value.value is False)):
+            continue
+        return False
+    return bool(body)
